@@ -204,6 +204,8 @@ type ReuseCase struct {
 	Other   fsx.Tree `json:"other"`
 	Ignore  bool     `json:"ignore"`
 	Overlap bool     `json:"overlap"` // the two Packs overlap (else: a failing Pack, then this one)
+	// two (or three) successful Packs one after the other; every Meta is looked at again once all are done
+	Twice bool `json:"twice,omitempty"`
 }
 
 func metaMatches(what string, meta *slug.Meta, data []byte) error {
@@ -258,7 +260,7 @@ var subReuse = ev.Register("reuse", func(c ReuseCase) error {
 		return fmt.Errorf("harness: %v", err)
 	}
 	other := c.Other
-	if !c.Overlap {
+	if !c.Overlap && !c.Twice {
 		// a tree whose Pack fails after some entries: an out-of-tree link that may not be stored
 		other = append(append(fsx.Tree{}, c.Other...), fsx.Node{Path: "zzz-out", Kind: "symlink", Target: "../../../nowhere/at/all"})
 	}
@@ -270,6 +272,34 @@ var subReuse = ev.Register("reuse", func(c ReuseCase) error {
 		return fmt.Errorf("harness: %v", err)
 	}
 	ev.NonTrivial(c, "packer-reused")
+	if c.Twice {
+		type result struct {
+			what string
+			meta *slug.Meta
+			data []byte
+		}
+		var results []result
+		for i, src := range []string{srcB, srcA, srcB} {
+			var buf bytes.Buffer
+			meta, perr := p.Pack(src, &buf)
+			if perr != nil {
+				ev.Label("pack-error")
+				return nil
+			}
+			what := fmt.Sprintf("Pack number %d on one Packer value", i+1)
+			if err := metaMatches(what, meta, buf.Bytes()); err != nil {
+				return err
+			}
+			results = append(results, result{what, meta, buf.Bytes()})
+		}
+		// a Meta handed out earlier still describes its own slug
+		for _, res := range results {
+			if err := metaMatches(res.what+", looked at again after the later Packs", res.meta, res.data); err != nil {
+				return err
+			}
+		}
+		return nil
+	}
 	if !c.Overlap {
 		var junk bytes.Buffer
 		func() {
@@ -328,7 +358,7 @@ var subReuse = ev.Register("reuse", func(c ReuseCase) error {
 func TestPropReuse(t *testing.T) {
 	ev.Check(t, subReuse, func(t *rapid.T) ReuseCase {
 		cfg := tgen.Config{MaxNodes: 8, Links: true, IgnoreNames: true, Awkward: true}
-		return ReuseCase{Tree: tgen.Gen(t, cfg), Other: tgen.Gen(t, cfg), Ignore: rapid.Bool().Draw(t, "ignore"), Overlap: rapid.Bool().Draw(t, "overlap")}
+		return ReuseCase{Tree: tgen.Gen(t, cfg), Other: tgen.Gen(t, cfg), Ignore: rapid.Bool().Draw(t, "ignore"), Overlap: rapid.Bool().Draw(t, "overlap"), Twice: rapid.IntRange(0, 2).Draw(t, "twice") == 0}
 	})
 }
 
